@@ -1,0 +1,159 @@
+//go:build verif
+
+// Contracts for the HTTP/2 frame reader (frame.go), checked by /verif/govc (comment-only file).
+package http2
+
+//@ -- a single flag bit (mask is a power of two)
+//@ pure func flag(f Flags, mask int) bool = (f / mask) % 2 == 1
+
+//@ -- error classification used by the RFC 7540 tables below
+//@ pure func isConnErr(err error, code int) bool = err.(ConnectionError) && unbox(ConnectionError, err) == code
+//@ pure func isConnErrDetail(err error, code int) bool = err.(connError) && unbox(connError, err).Code == code
+//@ pure func isStreamErr(err error, id int, code int) bool = err.(StreamError) && unbox(StreamError, err).StreamID == id && unbox(StreamError, err).Code == code
+
+//@ func Flags.Has
+//@   inline
+
+//@ func (*FrameHeader).checkValid :: h
+//@   props C19,C10
+//@   requires h != nil
+//@   requires [frame-still-valid] h.valid
+//@   assigns nothing
+
+//@ func validStreamIDOrZero :: streamID -> ok
+//@   props C19
+//@   assigns nothing
+//@   ensures ok <==> streamID < 2147483648
+
+//@ func validStreamID :: streamID -> ok
+//@   props C19
+//@   assigns nothing
+//@   ensures ok <==> (streamID != 0 && streamID < 2147483648)
+
+//@ func readByte :: p -> remain, b, err
+//@   props C19,C10
+//@   assigns nothing
+//@   ensures [C19:readbyte] len(p) == 0 ==> err == io.ErrUnexpectedEOF
+//@   ensures len(p) > 0 ==> err == nil && b == p[0] && remain == p[1:]
+
+//@ func readUint32 :: p -> remain, v, err
+//@   props C19,C10
+//@   assigns nothing
+//@   ensures len(p) < 4 ==> err == io.ErrUnexpectedEOF
+//@   ensures len(p) >= 4 ==> err == nil && v == be32(p) && remain == p[4:]
+
+//@ func (*frameCache).getDataFrame :: fc -> f
+//@   props C19
+//@   assigns nothing
+//@   ensures f != nil && (fc == nil ==> fresh(f))
+
+//@ func streamError :: id, code -> e
+//@   props C19
+//@   assigns nothing
+//@   ensures e.StreamID == id && e.Code == code
+
+//@ func readFrameHeader :: buf, r -> fh, err
+//@   props C19,C10
+//@   requires len(buf) >= 9
+//@   assigns post(buf), consumed(r)
+//@   ensures [C19:header-fields] err == nil ==> fh.valid && fh.Length == post(buf)[0]*65536 + post(buf)[1]*256 + post(buf)[2] && fh.Type == post(buf)[3] && fh.Flags == post(buf)[4] && fh.StreamID == be32(post(buf)[5:9]) % 2147483648
+//@   ensures [C19:header-consumes-9] err == nil ==> consumed(r) == old(consumed(r)) ++ post(buf)[:9]
+
+//@ func parseDataFrame :: fc, fh, countError, payload -> f, err
+//@   props C19,C10
+//@   callback countError
+//@   assigns frameCache.dataFrame.all, DataFrame.data, DataFrame.FrameHeader.all
+//@   ensures [C19:data-stream0] fh.StreamID == 0 ==> isConnErrDetail(err, 1)
+//@   ensures [C19:data-pad-byte-missing] fh.StreamID != 0 && flag(fh.Flags, 8) && len(payload) == 0 ==> err == io.ErrUnexpectedEOF
+//@   ensures [C19:data-pad-too-big] fh.StreamID != 0 && flag(fh.Flags, 8) && len(payload) > 0 && payload[0] > len(payload) - 1 ==> isConnErrDetail(err, 1)
+//@   ensures [C19:data-padded] fh.StreamID != 0 && flag(fh.Flags, 8) && len(payload) > 0 && payload[0] <= len(payload) - 1 ==> err == nil && isptr(DataFrame, f) && unboxptr(DataFrame, f) != nil && val(unboxptr(DataFrame, f).FrameHeader) == fh && unboxptr(DataFrame, f).data == payload[1 : len(payload)-payload[0]]
+//@   ensures [C19:data-plain] fh.StreamID != 0 && !flag(fh.Flags, 8) ==> err == nil && isptr(DataFrame, f) && unboxptr(DataFrame, f) != nil && val(unboxptr(DataFrame, f).FrameHeader) == fh && unboxptr(DataFrame, f).data == payload
+//@   ensures [C19:error-no-frame] err != nil ==> f == nil
+
+//@ func parsePingFrame :: fc, fh, countError, payload -> f, err
+//@   props C19,C10
+//@   callback countError
+//@   assigns nothing
+//@   ensures [C19:ping-len] len(payload) != 8 ==> isConnErr(err, 6)
+//@   ensures [C19:ping-stream] len(payload) == 8 && fh.StreamID != 0 ==> isConnErr(err, 1)
+//@   ensures [C19:ping-ok] len(payload) == 8 && fh.StreamID == 0 ==> err == nil && isptr(PingFrame, f) && unboxptr(PingFrame, f) != nil && fresh(unboxptr(PingFrame, f)) && val(unboxptr(PingFrame, f).FrameHeader) == fh && unboxptr(PingFrame, f).Data == payload
+//@   ensures [C19:error-no-frame] err != nil ==> f == nil
+
+//@ func parseGoAwayFrame :: fc, fh, countError, p -> f, err
+//@   props C19,C10
+//@   callback countError
+//@   assigns nothing
+//@   ensures [C19:goaway-stream] fh.StreamID != 0 ==> isConnErr(err, 1)
+//@   ensures [C19:goaway-short] fh.StreamID == 0 && len(p) < 8 ==> isConnErr(err, 6)
+//@   ensures [C19:goaway-ok] fh.StreamID == 0 && len(p) >= 8 ==> err == nil && isptr(GoAwayFrame, f) && unboxptr(GoAwayFrame, f) != nil && val(unboxptr(GoAwayFrame, f).FrameHeader) == fh && unboxptr(GoAwayFrame, f).LastStreamID == be32(p) % 2147483648 && unboxptr(GoAwayFrame, f).ErrCode == be32(p[4:8]) && unboxptr(GoAwayFrame, f).debugData == p[8:]
+//@   ensures [C19:error-no-frame] err != nil ==> f == nil
+
+//@ func parseUnknownFrame :: fc, fh, countError, p -> f, err
+//@   props C19,C10
+//@   callback countError
+//@   assigns nothing
+//@   ensures [C19:unknown-kept] err == nil && isptr(UnknownFrame, f) && unboxptr(UnknownFrame, f) != nil && val(unboxptr(UnknownFrame, f).FrameHeader) == fh && unboxptr(UnknownFrame, f).p == p
+
+//@ func parseWindowUpdateFrame :: fc, fh, countError, p -> f, err
+//@   props C19,C10,C03
+//@   callback countError
+//@   assigns nothing
+//@   ensures [C19:wu-len] len(p) != 4 ==> isConnErr(err, 6)
+//@   ensures [C19:wu-zero-conn] len(p) == 4 && be32(p) % 2147483648 == 0 && fh.StreamID == 0 ==> isConnErr(err, 1)
+//@   ensures [C19:wu-zero-stream] len(p) == 4 && be32(p) % 2147483648 == 0 && fh.StreamID != 0 ==> isStreamErr(err, fh.StreamID, 1)
+//@   ensures [C19:wu-ok] len(p) == 4 && be32(p) % 2147483648 != 0 ==> err == nil && isptr(WindowUpdateFrame, f) && unboxptr(WindowUpdateFrame, f) != nil && val(unboxptr(WindowUpdateFrame, f).FrameHeader) == fh && unboxptr(WindowUpdateFrame, f).Increment == be32(p) % 2147483648
+//@   ensures [C03:increment-positive] err == nil ==> 1 <= unboxptr(WindowUpdateFrame, f).Increment && unboxptr(WindowUpdateFrame, f).Increment <= 2147483647
+//@   ensures [C19:error-no-frame] err != nil ==> f == nil
+
+//@ func parsePriorityFrame :: fc, fh, countError, payload -> f, err
+//@   props C19,C10
+//@   callback countError
+//@   assigns nothing
+//@   ensures [C19:priority-stream0] fh.StreamID == 0 ==> isConnErrDetail(err, 1)
+//@   ensures [C19:priority-len] fh.StreamID != 0 && len(payload) != 5 ==> isConnErrDetail(err, 6)
+//@   ensures [C19:priority-ok] fh.StreamID != 0 && len(payload) == 5 ==> err == nil && isptr(PriorityFrame, f) && unboxptr(PriorityFrame, f) != nil && val(unboxptr(PriorityFrame, f).FrameHeader) == fh && unboxptr(PriorityFrame, f).PriorityParam.StreamDep == be32(payload) % 2147483648 && unboxptr(PriorityFrame, f).PriorityParam.Exclusive == (be32(payload) >= 2147483648) && unboxptr(PriorityFrame, f).PriorityParam.Weight == payload[4]
+//@   ensures [C19:error-no-frame] err != nil ==> f == nil
+
+//@ func parseRSTStreamFrame :: fc, fh, countError, p -> f, err
+//@   props C19,C10
+//@   callback countError
+//@   assigns nothing
+//@   ensures [C19:rst-len] len(p) != 4 ==> isConnErr(err, 6)
+//@   ensures [C19:rst-stream0] len(p) == 4 && fh.StreamID == 0 ==> isConnErr(err, 1)
+//@   ensures [C19:rst-ok] len(p) == 4 && fh.StreamID != 0 ==> err == nil && isptr(RSTStreamFrame, f) && unboxptr(RSTStreamFrame, f) != nil && val(unboxptr(RSTStreamFrame, f).FrameHeader) == fh && unboxptr(RSTStreamFrame, f).ErrCode == be32(p)
+//@   ensures [C19:error-no-frame] err != nil ==> f == nil
+
+//@ func parseContinuationFrame :: fc, fh, countError, p -> f, err
+//@   props C19,C10
+//@   callback countError
+//@   assigns nothing
+//@   ensures [C19:continuation-stream0] fh.StreamID == 0 ==> isConnErrDetail(err, 1)
+//@   ensures [C19:continuation-ok] fh.StreamID != 0 ==> err == nil && isptr(ContinuationFrame, f) && unboxptr(ContinuationFrame, f) != nil && val(unboxptr(ContinuationFrame, f).FrameHeader) == fh && unboxptr(ContinuationFrame, f).headerFragBuf == p
+//@   ensures [C19:error-no-frame] err != nil ==> f == nil
+
+//@ -- HEADERS: offsets of the optional pad-length octet and priority block
+//@ pure func hPad(fh FrameHeader) int = ite(flag(fh.Flags, 8), 1, 0)
+//@ pure func hPrio(fh FrameHeader) int = ite(flag(fh.Flags, 32), 5, 0)
+//@ pure func hPadLen(fh FrameHeader, p seq[byte]) int = ite(flag(fh.Flags, 8), p[0], 0)
+
+//@ func parseHeadersFrame :: fc, fh, countError, p -> f, err
+//@   props C19,C10
+//@   callback countError
+//@   assigns nothing
+//@   ensures [C19:headers-stream0] fh.StreamID == 0 ==> isConnErrDetail(err, 1)
+//@   ensures [C19:headers-short] fh.StreamID != 0 && len(p) < hPad(fh) + hPrio(fh) ==> err == io.ErrUnexpectedEOF
+//@   ensures [C19:headers-pad-too-big] fh.StreamID != 0 && len(p) >= hPad(fh) + hPrio(fh) && len(p) - hPad(fh) - hPrio(fh) < hPadLen(fh, p) ==> isStreamErr(err, fh.StreamID, 1)
+//@   ensures [C19:headers-ok] fh.StreamID != 0 && len(p) >= hPad(fh) + hPrio(fh) && len(p) - hPad(fh) - hPrio(fh) >= hPadLen(fh, p) ==> err == nil && isptr(HeadersFrame, f) && unboxptr(HeadersFrame, f) != nil && fresh(unboxptr(HeadersFrame, f)) && val(unboxptr(HeadersFrame, f).FrameHeader) == fh && unboxptr(HeadersFrame, f).headerFragBuf == p[hPad(fh)+hPrio(fh) : len(p)-hPadLen(fh, p)]
+//@   ensures [C19:headers-priority] err == nil && flag(fh.Flags, 32) ==> unboxptr(HeadersFrame, f).Priority.StreamDep == be32(p[hPad(fh):]) % 2147483648 && unboxptr(HeadersFrame, f).Priority.Exclusive == (be32(p[hPad(fh):]) >= 2147483648) && unboxptr(HeadersFrame, f).Priority.Weight == p[hPad(fh)+4]
+//@   ensures [C19:headers-no-priority] err == nil && !flag(fh.Flags, 32) ==> unboxptr(HeadersFrame, f).Priority.StreamDep == 0 && !unboxptr(HeadersFrame, f).Priority.Exclusive && unboxptr(HeadersFrame, f).Priority.Weight == 0
+//@   ensures [C19:error-no-frame] err != nil ==> f == nil
+
+//@ func parsePushPromise :: fc, fh, countError, p -> f, err
+//@   props C19,C10
+//@   callback countError
+//@   assigns nothing
+//@   ensures [C19:pp-stream0] fh.StreamID == 0 ==> isConnErr(err, 1)
+//@   ensures [C19:pp-short] fh.StreamID != 0 && len(p) < hPad(fh) + 4 ==> err == io.ErrUnexpectedEOF
+//@   ensures [C19:pp-pad-too-big] fh.StreamID != 0 && len(p) >= hPad(fh) + 4 && hPadLen(fh, p) > len(p) - hPad(fh) - 4 ==> isConnErr(err, 1)
+//@   ensures [C19:pp-ok] fh.StreamID != 0 && len(p) >= hPad(fh) + 4 && hPadLen(fh, p) <= len(p) - hPad(fh) - 4 ==> err == nil && isptr(PushPromiseFrame, f) && unboxptr(PushPromiseFrame, f) != nil && val(unboxptr(PushPromiseFrame, f).FrameHeader) == fh && unboxptr(PushPromiseFrame, f).PromiseID == be32(p[hPad(fh):]) % 2147483648 && unboxptr(PushPromiseFrame, f).headerFragBuf == p[hPad(fh)+4 : len(p)-hPadLen(fh, p)]
+//@   ensures [C19:error-no-frame] err != nil ==> f == nil
